@@ -391,20 +391,25 @@ pub struct Variant {
     /// the first (7) is configured master-only
     pub slave_only: bool,
     pub master_only: Option<char>,
+    /// C05, workers 6 and 7: the port on the first segment has an empty acceptable master list (it follows nobody)
+    pub empty_aml_a: bool,
+    /// C05: the world is ready as soon as the daemon answers on its observation socket and has run for 1.5 s, in
+    /// whatever states (the case itself judges them)
+    pub lenient_establish: bool,
 }
 
 impl Variant {
     pub fn from_index(first: u64, prop: &str) -> Variant {
         let alt = (first / 4) % 2 == 1;
         let other_domain = first % 3 == 1;
-        Variant { path_trace: first % 2 == 1, udp: (first / 2) % 2 == 1, swap: alt && prop != "C12" && prop != "C06" && prop != "C09" && prop != "C08", p2p: (alt && (prop == "C12" || prop == "C09")) || prop == "C14", sdo: if other_domain { 0x1a5 } else { 0 }, domain: if other_domain { 7 } else { 0 }, alt, aml: (prop == "C14" || prop == "C07") && first % 2 == 1, long_timeout: prop == "C14", slow_other_port: prop == "C06" && alt, asym_ns: if prop == "C09" { [0i64, -2_000_000, 1_500_000, 12_345_678][(first % 4) as usize] } else { 0 }, own_p1: if prop == "C05" { [128u8, 127, 129, 128][(first % 4) as usize] } else { 128 }, own_p2: if prop == "C05" { [128u8, 128, 127, 129][(first % 4) as usize] } else { 128 }, slave_only: prop == "C08" && alt && first % 2 == 0, master_only: if prop == "C08" && alt { [None, Some('b'), Some('b'), Some('a')][(first % 4) as usize] } else if prop == "C07" && alt { Some('b') } else { None } }
+        Variant { path_trace: first % 2 == 1, udp: (first / 2) % 2 == 1, swap: alt && prop != "C12" && prop != "C06" && prop != "C09" && prop != "C08", p2p: (alt && (prop == "C12" || prop == "C09")) || prop == "C14", sdo: if other_domain { 0x1a5 } else { 0 }, domain: if other_domain { 7 } else { 0 }, alt, aml: (prop == "C14" || prop == "C07") && first % 2 == 1, long_timeout: prop == "C14", slow_other_port: prop == "C06" && alt, asym_ns: if prop == "C09" { [0i64, -2_000_000, 1_500_000, 12_345_678][(first % 4) as usize] } else { 0 }, own_p1: if prop == "C05" { [128u8, 127, 129, 128][(first % 4) as usize] } else { 128 }, own_p2: if prop == "C05" { [128u8, 128, 127, 129][(first % 4) as usize] } else { 128 }, slave_only: prop == "C08" && alt && first % 2 == 0, master_only: if prop == "C08" && alt { [None, Some('b'), Some('b'), Some('a')][(first % 4) as usize] } else if prop == "C07" && alt { Some('b') } else { None }, empty_aml_a: prop == "C05" && first % 8 >= 6, lenient_establish: prop == "C05" }
     }
     pub fn index(&self) -> u64 {
         self.path_trace as u64 + 2 * self.udp as u64 + 4 * self.alt as u64
     }
     pub fn from_render(v: &Value, prop: &str) -> Variant {
         let alt = v["variant_alt"].as_bool().unwrap_or(false);
-        let mut var = Variant { path_trace: v["path_trace"].as_bool().unwrap_or(false), udp: v["transport"].as_str() == Some("udp-ipv4"), swap: alt && prop != "C12" && prop != "C06" && prop != "C09" && prop != "C08", p2p: (alt && (prop == "C12" || prop == "C09")) || prop == "C14", sdo: 0, domain: 0, alt, aml: false, long_timeout: prop == "C14", slow_other_port: prop == "C06" && alt, asym_ns: 0, own_p1: 128, own_p2: 128, slave_only: false, master_only: None };
+        let mut var = Variant { path_trace: v["path_trace"].as_bool().unwrap_or(false), udp: v["transport"].as_str() == Some("udp-ipv4"), swap: alt && prop != "C12" && prop != "C06" && prop != "C09" && prop != "C08", p2p: (alt && (prop == "C12" || prop == "C09")) || prop == "C14", sdo: 0, domain: 0, alt, aml: false, long_timeout: prop == "C14", slow_other_port: prop == "C06" && alt, asym_ns: 0, own_p1: 128, own_p2: 128, slave_only: false, master_only: None, empty_aml_a: false, lenient_establish: prop == "C05" };
         // sdoId / domain are a function of the worker index
         let again = Variant::from_index(var.index(), prop);
         var.sdo = again.sdo;
@@ -414,6 +419,7 @@ impl Variant {
         var.own_p1 = again.own_p1;
         var.own_p2 = again.own_p2;
         var.slave_only = again.slave_only;
+        var.empty_aml_a = again.empty_aml_a;
         var.master_only = again.master_only;
         var
     }
@@ -539,8 +545,8 @@ impl World {
             p1 = variant.own_p1,
             p2 = variant.own_p2,
             inst = if variant.slave_only { "slave-only = true\n" } else { "" },
-            xa = if variant.master_only == Some(if variant.swap { 'b' } else { 'a' }) { "master-only = true\n" } else { "" },
-            xb = if variant.master_only == Some(if variant.swap { 'a' } else { 'b' }) { "master-only = true\n" } else { "" },
+            xa = format!("{}{}", if variant.master_only == Some(if variant.swap { 'b' } else { 'a' }) { "master-only = true\n" } else { "" }, if variant.empty_aml_a && !variant.swap { "acceptable-master-list = []\n" } else { "" }),
+            xb = format!("{}{}", if variant.master_only == Some(if variant.swap { 'a' } else { 'b' }) { "master-only = true\n" } else { "" }, if variant.empty_aml_a && variant.swap { "acceptable-master-list = []\n" } else { "" }),
             lb = if variant.slow_other_port { 0 } else { ANN_LOG },
             aml = format!("{}{}{}", if variant.asym_ns != 0 { format!("delay-asymmetry = {}\n", variant.asym_ns) } else { String::new() }, if variant.aml { "acceptable-master-list = [\"001b19cc00000002\", \"001b19cc00000007\", \"001b19cc00000021\"]\n" } else { "" }, if variant.long_timeout { "announce-receipt-timeout = 8\n" } else { "" })
         );
@@ -970,7 +976,7 @@ impl World {
 
     /// the states the ports have while only the usual parent announces: (Slave, Master) - unless configured otherwise
     pub fn steady_states(&self) -> (&'static str, &'static str) {
-        (if self.variant.master_only == Some('a') { "Master" } else { "Slave" }, if self.variant.slave_only { "Listening" } else { "Master" })
+        (if self.variant.master_only == Some('a') || self.variant.empty_aml_a { "Master" } else { "Slave" }, if self.variant.slave_only { "Listening" } else { "Master" })
     }
     pub fn steady(&self) -> bool {
         let (wa, wb) = self.steady_states();
@@ -986,7 +992,7 @@ impl World {
             }
             let d = Instant::now() + Duration::from_millis(150);
             self.run_until(d);
-            if self.steady() && (self.seen_b.len() >= 2 || self.steady_states().1 != "Master") {
+            if (self.steady() && (self.seen_b.len() >= 2 || self.steady_states().1 != "Master")) || (self.variant.lenient_establish && t0.elapsed() > Duration::from_millis(1500) && self.port_states().is_some()) {
                 self.seen_b.clear();
                 self.sent.clear();
                 return Ok(());
@@ -2269,7 +2275,7 @@ pub fn case_c03(w: &mut World, t: &mut Tape) -> E2eOut {
 // ---------------------------------------------------------------- C05 case (the daemon's BMCA outcome against the standard's)
 
 /// One case: up to two generated masters on each segment (and the usual parent on the first, in half of the cases)
-/// announce steadily for 2 s; their data sets are drawn from small domains around the daemon's own and the parent's
+/// announce steadily for 2 s (in a third of the cases after 3-5 s in which nobody announced at all); their data sets are drawn from small domains around the daemon's own and the parent's
 /// values, attributes being a function of the grandmaster identity; several senders may announce one grandmaster at
 /// different distances (topology decisions, Passive ports). Then the daemon's port states, parentDS and stepsRemoved
 /// are compared with what the harness's own implementation of 1588's data set comparison and state decision gives
@@ -2306,14 +2312,36 @@ pub fn case_c05(w: &mut World, t: &mut Tape) -> E2eOut {
             senders.push((seg, sender, ann, t.below(0x10000) as u16));
         }
     }
-    let rendered = json!({"parent_on": parent_on, "senders": senders.iter().map(|s| format!("{} {:02x?}/{} gm {:02x?} p1 {} class {} acc {:#x} var {:#x} p2 {} steps {}", s.0, s.1.clock, s.1.port, s.2.gm_identity, s.2.gm_priority1, s.2.gm_class, s.2.gm_accuracy, s.2.gm_variance, s.2.gm_priority2, s.2.steps_removed)).collect::<Vec<_>>()});
+    // in a third of the cases nobody announces on either segment for 3-5 s first: both ports are then masters whose
+    // announce receipt timers ran out long ago when the masters appear
+    let quiet_ms = if t.chance(1, 3) { t.urange(3000, 5000) } else { 0 };
+    let rendered = json!({"parent_on": parent_on, "quiet_before_ms": quiet_ms, "senders": senders.iter().map(|s| format!("{} {:02x?}/{} gm {:02x?} p1 {} class {} acc {:#x} var {:#x} p2 {} steps {}", s.0, s.1.clock, s.1.port, s.2.gm_identity, s.2.gm_priority1, s.2.gm_class, s.2.gm_accuracy, s.2.gm_variance, s.2.gm_priority2, s.2.steps_removed)).collect::<Vec<_>>()});
     out.render = rendered.clone();
     let a_port = w.slave_port_id();
     let b_port = PortId { clock: w.own_identity, port: (1 - w.slave_idx) as u16 + 1 };
-    let mut step = |w: &mut World, senders: &mut Vec<(char, PortId, RAnnounce, u16)>, ms: u64| {
+    if quiet_ms > 0 {
+        let q0 = Instant::now();
+        while q0.elapsed() < Duration::from_millis(quiet_ms) {
+            w.next_parent = Instant::now() + Duration::from_millis(500);
+            let d = Instant::now() + Duration::from_millis(50);
+            w.run_until(d);
+        }
+        w.next_parent = Instant::now();
+        out.label("daemon:quiet-prelude");
+    }
+    w.log.clear();
+    let mut polls: Vec<(Instant, String, String)> = vec![];
+    let mut step = |w: &mut World, senders: &mut Vec<(char, PortId, RAnnounce, u16)>, polls: &mut Vec<(Instant, String, String)>, ms: u64| {
         let t0 = Instant::now();
         let mut next = Instant::now();
+        let mut tick = 0u64;
         while t0.elapsed() < Duration::from_millis(ms) {
+            tick += 1;
+            if tick % 4 == 0 {
+                if let Some((a, b)) = w.port_states() {
+                    polls.push((Instant::now(), a, b));
+                }
+            }
             if !parent_on {
                 w.next_parent = Instant::now() + Duration::from_millis(500);
             }
@@ -2334,7 +2362,7 @@ pub fn case_c05(w: &mut World, t: &mut Tape) -> E2eOut {
             }
         }
     };
-    step(w, &mut senders, 2000);
+    step(w, &mut senders, &mut polls, 2000);
     let cand_list: Vec<(char, Cand)> = senders.iter().map(|s| (s.0, Cand { sender: s.1, ann: s.2 })).collect();
     let judge = |w: &World| -> Result<Option<String>, String> {
         let Some(o) = w.observe() else { return Err("no observation".into()) };
@@ -2348,6 +2376,10 @@ pub fn case_c05(w: &mut World, t: &mut Tape) -> E2eOut {
         let mut ca: Vec<Cand> = cand_list.iter().filter(|s| s.0 == 'a').map(|s| s.1).collect();
         if parent_on {
             ca.push(Cand { sender: PARENT, ann: w.parent_ann });
+        }
+        if w.variant.empty_aml_a {
+            // that port accepts nobody
+            ca.clear();
         }
         let cb: Vec<Cand> = cand_list.iter().filter(|s| s.0 == 'b').map(|s| s.1).collect();
         let ports = [PortIn { id: a_port, listening: false, excluded_from_ebest: false, cands: ca }, PortIn { id: b_port, listening: false, excluded_from_ebest: false, cands: cb }];
@@ -2396,7 +2428,7 @@ pub fn case_c05(w: &mut World, t: &mut Tape) -> E2eOut {
     let mut verdict = judge(w);
     let mut extra = 0;
     while matches!(&verdict, Ok(Some(d)) if !d.is_empty()) && extra < 15 {
-        step(w, &mut senders, 100);
+        step(w, &mut senders, &mut polls, 100);
         verdict = judge(w);
         extra += 1;
     }
@@ -2420,6 +2452,30 @@ pub fn case_c05(w: &mut World, t: &mut Tape) -> E2eOut {
             if !senders.is_empty() {
                 out.nontrivial = Some(hash_of(&rendered.to_string()));
             }
+        }
+    }
+    // the wire must agree: a port that the daemon reports Slave from some observation on to the end of the case sends
+    // no Announce and no Sync from 150 ms after that observation on
+    let frames = w.log.clone();
+    if std::env::var("VERIF_E2E_DEBUG").is_ok() {
+        let base = polls.first().map(|p| p.0).unwrap_or_else(Instant::now);
+        eprintln!("polls: {:?}", polls.iter().map(|p| format!("{}:{}/{}", p.0.saturating_duration_since(base).as_millis(), &p.1[..2], &p.2[..2])).collect::<Vec<_>>());
+        eprintln!("frames: {:?}", frames.iter().map(|f| format!("{}:{}{:x}", f.2.saturating_duration_since(base).as_millis(), f.0, f.1)).collect::<Vec<_>>());
+    }
+    for (k, side) in ['a', 'b'].iter().enumerate() {
+        let st = |p: &(Instant, String, String)| if k == 0 { p.1.starts_with("Slave") } else { p.2.starts_with("Slave") };
+        let Some(last) = polls.last() else { continue };
+        if !st(last) {
+            continue;
+        }
+        let mut from = polls.len() - 1;
+        while from > 0 && st(&polls[from - 1]) {
+            from -= 1;
+        }
+        let (t_from, t_to) = (polls[from].0 + Duration::from_millis(150), last.0);
+        let n = frames.iter().filter(|f| f.0 == *side && matches!(f.1, T_ANNOUNCE | T_SYNC) && f.2 >= t_from && f.2 <= t_to).count();
+        if n > 0 && out.violation.is_none() {
+            out.fail("daemon: a port decided (and reported) slave keeps sending as a master", format!("{} Announce/Sync frames on the {} segment during the {} ms in which every observation showed that port Slave ; {}", n, if k == 0 { "first" } else { "second" }, t_to.saturating_duration_since(t_from).as_millis(), rendered));
         }
     }
     out.label(format!("daemon:bmca:{}", codes_label));
@@ -3755,6 +3811,7 @@ pub fn worker_main(args: &[String]) -> i32 {
             o.insert("own_priority1".into(), json!(variant.own_p1));
             o.insert("own_priority2".into(), json!(variant.own_p2));
             o.insert("slave_only".into(), json!(variant.slave_only));
+            o.insert("empty_acceptable_master_list_on_first_segment".into(), json!(variant.empty_aml_a));
             o.insert("master_only_port_on_segment".into(), json!(variant.master_only.map(|c| c.to_string())));
         }
         let line = json!({
